@@ -368,7 +368,7 @@ def run_unit(ctx: C.Ctx) -> dict:
     n_x = x_stream(ctx, st)
     replay_findings(ctx)
     # report the shortest failing history of each class first (ctx.finish keeps the first per key)
-    ctx.failures[n_fail0:] = sorted(ctx.failures[n_fail0:], key=lambda f: len(f["case"]["calls"]))
+    ctx.failures[n_fail0:] = sorted(ctx.failures[n_fail0:], key=lambda f: (len(f["case"]["calls"]), len(str(f["case"]["calls"]))))
 
     samples = [S.show_case(cases[i]) for i in (0, len(cases) // 3, len(cases) // 2, len(cases) - 1)]
     dist = S.distribution(st)
